@@ -37,6 +37,8 @@ def main(chk):
       @nn.compact
       def __call__(self, c, x):
         w = self.param('w', nn.with_partitioning(lambda k: jnp.zeros(shape, jnp.float32) + 1, names))
+        if self.has_variable('consts', 'k'):      # a read-only per-iteration constant (variable_axes In(0)), listed before 'params'
+          x = x + 0 * jnp.sum(self.get_variable('consts', 'k'))
         boxed = self.variables['params']['w']
         seen_inside.append(tuple(boxed.names) if hasattr(boxed, 'names') else None)
         return c, x + jnp.sum(w)
@@ -59,8 +61,12 @@ def main(chk):
     if pname is None:
       key += ':partition_name=None'
     Body = make_body(shape, names)
-    T = nn.scan(Body, variable_axes={'params': a1}, split_rngs={'params': True}, length=5, in_axes=nn.broadcast,
-                metadata_params={nn.PARTITION_NAME: pname}) if idx % 2 == 0 else \
+    with_consts = idx % 4 == 2 and outer == 'none'      # a second, input-only collection on another axis
+    if with_consts:
+      from flax.typing import In
+      key += ':consts=In(0)'
+    T = nn.scan(Body, variable_axes=({'consts': In(0), 'params': a1} if with_consts else {'params': a1}), split_rngs={'params': True}, length=5,
+                in_axes=nn.broadcast, metadata_params={nn.PARTITION_NAME: pname}) if idx % 2 == 0 else \
         nn.vmap(Body, variable_axes={'params': a1}, split_rngs={'params': True}, axis_size=5, in_axes=(None, None), out_axes=(None, 0),
                 metadata_params={nn.PARTITION_NAME: pname})
     inner_is_scan = idx % 2 == 0
@@ -76,7 +82,12 @@ def main(chk):
       del seen_inside[:]
       mdl = T()
       x0 = jnp.zeros(())
-      variables = mdl.init(jax.random.key(0), x0, x0)
+      if with_consts:
+        consts = {'consts': {'k': jnp.arange(5.0)}}
+        _, variables = mdl.apply(consts, x0, x0, rngs={'params': jax.random.key(0)}, mutable=['params'])
+        variables = {**consts, **variables}
+      else:
+        variables = mdl.init(jax.random.key(0), x0, x0)
       boxed = variables['params']['w']
       got_names = tuple(boxed.names)
       got_shape = tuple(boxed.value.shape)
